@@ -10,8 +10,17 @@ open Monero
 theorem ofOption_toOption {α} (o : Option α) : (Out.ofOption o).toOption = o := by cases o <;> rfl
 theorem ofOption_isPanic {α} (o : Option α) : (Out.ofOption o).isPanic = false := by cases o <;> rfl
 
-/-- under the precondition `1 + inputs` fits a `usize`, section 2 is the total model's -/
-theorem sigsDecP_eq (ty inputs mixin : Nat) (b : Bytes) (h : 1 + inputs < 2 ^ 64) :
+theorem sizedVec_over_cap {α} (sz : Nat) (d : Dec α) (n : Nat) (b : Bytes) (h : n * sz > CAP) : sizedVec sz d n b = none := by
+  unfold sizedVec; rw [if_pos h]; rfl
+
+/-- an MLSAG with more columns than the allocation cap admits is refused before anything is read -/
+theorem mgDec_over_cap (cols mixin : Nat) (b : Bytes) (h : cols * sizes.key > CAP) : mgDec cols mixin b = none := by
+  unfold mgDec
+  simp only [rep, bind, sizedVec_over_cap _ _ _ _ h]
+
+/-- for every `usize` value of `inputs`, section 2 is the total model's: below the maximum the saturating sum is the sum;
+at `usize::MAX` both `usize::MAX` and `2^64` columns exceed the allocation cap and the decoder refuses -/
+theorem sigsDecP_eq (ty inputs mixin : Nat) (b : Bytes) (h : inputs < 2 ^ 64) :
     sigsDecP ty inputs mixin b = .ofOption (sigsDec ty inputs mixin b) := by
   unfold sigsDecP
   by_cases h1 : ty = 5 ∨ ty = 6
@@ -20,14 +29,26 @@ theorem sigsDecP_eq (ty inputs mixin : Nat) (b : Bytes) (h : 1 + inputs < 2 ^ 64
     by_cases h2 : ty = 2 ∨ ty = 3 ∨ ty = 4
     · rw [if_pos h2]
     · rw [if_neg h2]
-      have : addU 64 "RctSigPrunable::consensus_decode: 1 + inputs" 1 inputs = .ok (1 + inputs) := by
-        unfold addU; rw [if_pos h]
-      rw [this, bind_ok]
       unfold sigsDec
       rw [if_neg h1]
       simp only [h2, if_false]
+      by_cases hs : inputs + 1 < 2 ^ 64
+      · have : satAddU 64 inputs 1 = 1 + inputs := by unfold satAddU; omega
+        rw [this]
+      · have e : inputs = 2 ^ 64 - 1 := by omega
+        have hk : 1 ≤ sizes.key := by decide
+        have hc : CAP < 2 ^ 63 := by decide
+        have c1 : satAddU 64 inputs 1 * sizes.key > CAP := by
+          have : satAddU 64 inputs 1 = 2 ^ 64 - 1 := by unfold satAddU; omega
+          rw [this]
+          have := Nat.le_mul_of_pos_right (2 ^ 64 - 1) hk
+          omega
+        have c2 : (1 + inputs) * sizes.key > CAP := by
+          have := Nat.le_mul_of_pos_right (1 + inputs) hk
+          omega
+        simp only [rep, bind, mgDec_over_cap _ _ _ c1, mgDec_over_cap _ _ _ c2]
 
-theorem prunableP_eq (ty inputs outputs mixin : Nat) (b : Bytes) (h : 1 + inputs < 2 ^ 64) :
+theorem prunableP_eq (ty inputs outputs mixin : Nat) (b : Bytes) (h : inputs < 2 ^ 64) :
     prunableP ty inputs outputs mixin b = .ofOption (prunable ty inputs outputs mixin b) := by
   unfold prunableP prunable
   by_cases h0 : ty = 0
@@ -51,9 +72,12 @@ theorem prunableP_eq (ty inputs outputs mixin : Nat) (b : Bytes) (h : 1 + inputs
           obtain ⟨po, r3⟩ := u
           rfl
 
-/-- without the precondition the public decoder DOES reach the overflow: type Full, `inputs = usize::MAX`, no outputs,
-empty reader (the zero-length range-signature vector is read first and succeeds) -/
-theorem prunableP_panics_at_max : (prunableP 1 (2 ^ 64 - 1) 0 0 []).isPanic = true := by decide
+/-- at `inputs = usize::MAX` (type Full, no outputs, empty reader: the call that overflowed before the fix) the decoder now
+refuses: the saturated column count exceeds the allocation cap -/
+theorem prunableP_at_max : (prunableP 1 (2 ^ 64 - 1) 0 0 []).isPanic = false ∧ (prunableP 1 (2 ^ 64 - 1) 0 0 []).toOption = none := by
+  rw [prunableP_eq 1 (2 ^ 64 - 1) 0 0 [] (by omega)]
+  have : prunable 1 (2 ^ 64 - 1) 0 0 [] = none := by decide
+  rw [this]; exact ⟨rfl, rfl⟩
 
 theorem mixin_guarded (ins : List TxIn) : (if ins.length > 0 then mixinAtP ins else .ok 0) = mixinP ins := by
   cases ins with
@@ -111,7 +135,7 @@ theorem txP_eq (b : Bytes) : txP b = .ofOption (tx b) := by
             cases hh : p.ins.head? with
             | none =>
               simp only [bind_ok]
-              rw [prunableP_eq _ _ _ _ _ hin]
+              rw [prunableP_eq _ _ _ _ _ (by omega)]
               cases hq : prunable bs.ty p.ins.length p.outs.length 0 r1 with
               | none => simp only [Monero.bind, hq]; rfl
               | some u => obtain ⟨pr, r2⟩ := u; simp only [Monero.bind, hq]; rfl
@@ -119,7 +143,7 @@ theorem txP_eq (b : Bytes) : txP b = .ofOption (tx b) := by
               cases i0 with
               | gen g =>
                 simp only [bind_ok]
-                rw [prunableP_eq _ _ _ _ _ hin]
+                rw [prunableP_eq _ _ _ _ _ (by omega)]
                 cases hq : prunable bs.ty p.ins.length p.outs.length 0 r1 with
                 | none => simp only [Monero.bind, hq]; rfl
                 | some u => obtain ⟨pr, r2⟩ := u; simp only [Monero.bind, hq]; rfl
@@ -128,7 +152,7 @@ theorem txP_eq (b : Bytes) : txP b = .ofOption (tx b) := by
                 by_cases ho : o.length = 0
                 · rw [if_pos ho, if_pos ho]; rfl
                 · rw [if_neg ho, if_neg ho, bind_ok]
-                  rw [prunableP_eq _ _ _ _ _ hin]
+                  rw [prunableP_eq _ _ _ _ _ (by omega)]
                   cases hq : prunable bs.ty p.ins.length p.outs.length (o.length - 1) r1 with
                   | none => simp only [Monero.bind, hq]; rfl
                   | some u => obtain ⟨pr, r2⟩ := u; simp only [Monero.bind, hq]; rfl
